@@ -65,6 +65,16 @@ def search_facts(e, s, fieldpath):
     return out
 
 
+def contains_fact(e, s, fieldpath):
+    """value of a decided `contains(field, x)` on the path, if any"""
+    for k, v in s.state.facts.items():
+        if k[0] == 'pure' and k[1].split('::')[-1] == 'contains' and len(k[2]) == 2:
+            ap = terms.access_path(k[2][0])
+            if ap and ap[0] == 1 and terms.strip_some(ap[1])[:len(fieldpath)] == fieldpath:
+                return v
+    return None
+
+
 def arg_is_validated(e, st, v, role, roles):
     return mu.validated_shape(e, st, v, role, roles)
 
@@ -106,7 +116,8 @@ def spec_effect(prog, e, segs, fn, ty, name, rep, roles, has_loops):
                 if others:
                     bad.append('unexpected effect %s' % [(x[0], x[1]) for x in others])
                 sf = search_facts(e, s, field)
-                if not multiset and sf and sf[-1][0] == 'pos':
+                present = bool(sf and sf[-1][0] == 'pos') or contains_fact(e, s, field) is True
+                if not multiset and present:
                     if adds:
                         bad.append('an attribute that is already present is inserted again')
                     continue
@@ -126,6 +137,28 @@ def spec_effect(prog, e, segs, fn, ty, name, rep, roles, has_loops):
                         bad.append('error path has effects')
                     continue
                 sf = search_facts(e, s, field)
+                if oc == 'ok' and not multiset:
+                    # set idiom: retain(|a| a != value) on a duplicate-free list removes exactly the one occurrence; the result is computed
+                    ret_ops = [x for x in ef if x[0] == field and x[1] == 'retain']
+                    if len(ef) == 1 and len(ret_ops) == 1:
+                        clos = ret_ops[0][2][0] if ret_ops[0][2] else None
+                        caps = clos[2] if clos and clos[0] == 'closure' else ()
+                        okc = False
+                        for c in caps:
+                            cv = e.deref_value(s.state, c) if c[0] in ('ref', 'cref') else c
+                            if not arg_is_validated(e, s.state, cv, role, roles):
+                                okc = True
+                        if not okc:
+                            bad.append('retain does not filter on the validated argument')
+                        continue
+                if oc == 'ok' and sf:
+                    # the result is computed from the search (`position.is_some()`): classify the path by the search outcome
+                    r0 = s.ret[3][0] if s.ret[0] == 'adt' and s.ret[3] else None
+                    mentions = r0 is not None and bool(terms.find_terms(r0, lambda t: ts.is_search(t) and t == sf[-1][1]))
+                    if not mentions:
+                        bad.append('the result is not derived from the search for the validated argument: %s' % e.short(r0, 100))
+                        continue
+                    oc = 'ok-true' if sf[-1][0] == 'pos' else 'ok-false'
                 if oc == 'ok-false':
                     if ef:
                         bad.append('reports "not present" but modifies the list: %s' % [(x[0], x[1]) for x in ef])
@@ -187,6 +220,8 @@ def spec_effect(prog, e, segs, fn, ty, name, rep, roles, has_loops):
                     bad.extend(mu.check_values_closure(prog, clos, vr, roles))
                     if s.state.facts.get(('tag', vv[1])) != 'pos':
                         bad.append('values stored without checking that every one validated')
+                elif local_vector_of_validated(prog, e, segs, v, vr, roles, bad):
+                    pass
                 else:
                     bad.append('stored values are not the validated, filtered argument list: INCONCLUSIVE(%s)' % e.short(v, 160))
             if not nok:
@@ -271,6 +306,49 @@ def spec_effect(prog, e, segs, fn, ty, name, rep, roles, has_loops):
     return True
 
 
+def local_vector_of_validated(prog, e, segs, v, role, roles, bad):
+    """alternative idiom for the values of a map insertion: a local vector filled by a loop over the values argument, every push
+    being the validated (and not 'true') element; -> True when `v` is such a vector (problems appended to bad)"""
+    x = v
+    while x[0] in ('mut', 'cref'):
+        x = x[1]
+    if not (x[0] == 'lv' and isinstance(x[1], tuple) and len(x[1]) == 1):
+        return False
+    local = x[1][0]
+    npush = 0
+    its = set()
+    for s in segs:
+        for ev in s.events:
+            if ev[0] == 'next':
+                its.add(ev[1])
+            if ev[0] == 'call' and ev[1].endswith('::push') and ev[2]:
+                tp = models.vec_place(e, s.state, ev[2][0])
+                if tp == ('L', 1, local):
+                    npush += 1
+                    bad.extend(mu.validated_shape(e, s.state, ev[2][1], role, roles, shapes=s.shapes))
+            elif ev[0] == 'call' and models.MUTATOR_RE.search(ev[1]) and ev[1].split('::')[-1] not in ts.NOT_OPS and ev[2] and models.vec_place(e, s.state, ev[2][0]) == ('L', 1, local):
+                bad.append('the value list is modified by %s' % ev[1].split('::')[-1])
+    if not npush:
+        return False
+    # the loop must run over the values argument
+    src_ok = False
+    for s in segs:
+        for ev in s.events:
+            if ev[0] == 'def' and ev[1] in its and terms.involves_param(ev[2], 3):
+                src_ok = True
+    if not src_ok:
+        for it in its:
+            if it[0] == 'L':
+                for s in segs:
+                    for ev in s.events:
+                        if ev[0] == 'def' and ev[2][0] in ('sliceiter', 'pure', 'param', 'ref') and terms.involves_param(ev[2], 3) \
+                                and (ev[2][0] != 'pure' or ev[2][1].split('::')[-1] in ('into_iter', 'iter')):
+                            src_ok = True
+    if not src_ok:
+        bad.append('the loop that fills the value list does not run over the values argument')
+    return True
+
+
 GETTERS = {
     # (type, method) -> (field predicate, role of the argument, lookup op)
     ('UnicodeExtensionList', 'has_attribute'): (lambda f: terms.norm_ty(f['ty']).startswith('std::vec::Vec<'), 'uattr', 'contains'),
@@ -302,7 +380,8 @@ def getters(prog, rep, roles):
                     bad.extend(mu.rejected_shape(e, s, role, roles))
                     continue
                 nok += 1
-                calls = [ev for ev in s.state.events if ev[0] == 'call' and ev[1].split('::')[-1] == op and ev[2]]
+                ops = (op, 'binary_search') if op == 'contains' else (op,)
+                calls = [ev for ev in s.state.events if ev[0] == 'call' and ev[1].split('::')[-1] in ops and ev[2]]
                 hit = None
                 for ev in calls:
                     ap = terms.access_path(ev[2][0])
@@ -343,7 +422,7 @@ def raw_ctor_callers(prog, rep, allinv):
                     if ap is not None and not terms.find_terms(v, lambda t: t[0] in ('pure', 'mut', 'call')):
                         continue       # an existing variants field / parameter of that type moved through
                     r = ts.of_value(e, s.state, v, s.state.facts)
-                    if r.state > ts.SD or r.maybe_empty:
+                    if ts.worse(r.state, ts.SD) or r.maybe_empty:
                         bad.append('passes variants that are %s%s: %s' % (ts.NAMES[r.state], ' and possibly empty' if r.maybe_empty else '', e.short(v, 140)))
         rep.ob('rawctor:%s' % validators.fn_key(f), 'TS-RAWCTOR', f, b['span'], '%s hands canonical variants (None, or sorted, duplicate-free, non-empty) to the unchecked constructor' % validators.short_fn(f),
                not bad, detail='\n'.join(sorted(set(bad))[:3]))
